@@ -129,6 +129,11 @@ func lgBehaviour(c fox.Context) {
 			c.Writer().WriteHeader(code)
 		case strings.HasPrefix(op, "L"):
 			c.Writer().Header().Set("Location", unhx(op[1:]))
+		case strings.HasPrefix(op, "q"):
+			// an internal rewrite: the handler replaces the request by one with another path (Context.SetRequest)
+			r2 := c.Request().Clone(c.Request().Context())
+			r2.URL = &url.URL{Path: unhx(op[1:])}
+			c.SetRequest(r2)
 		}
 	}
 }
@@ -348,6 +353,15 @@ func lgStatus(r *Rng) int {
 }
 
 func lgGenBeh(r *Rng) string {
+	b := lgGenBeh0(r)
+	if b != "-" && r.Intn(8) == 0 {
+		// the handler first rewrites the request path (SetRequest): the record reports the request the context holds
+		b = "q" + hx(Pick(r, []string{"/internal/v2", "/r/rewritten", "/"})) + "+" + b
+	}
+	return b
+}
+
+func lgGenBeh0(r *Rng) string {
 	h := func() string { return "h" + itoa(lgStatus(r)) }
 	loc := func() string { return "L" + hx(Pick(r, lgLocations)) }
 	switch r.Intn(18) {
@@ -422,6 +436,13 @@ func genLogger(r *Rng, tier string, n int, emit func(string)) {
 					path, raw = "/r/a/b", "/r/a%2Fb"
 				} else if r.Intn(4) == 0 {
 					path = "/alias/abc"
+					// (the re-dispatched handler runs on the context of the inner Lookup: a request it sets there is not the
+					// outer request the Logger reports)
+					if strings.HasPrefix(beh, "q") {
+						if i := strings.IndexByte(beh, '+'); i >= 0 {
+							beh = beh[i+1:]
+						}
+					}
 				}
 			case "noroute":
 				method = Pick(r, []string{"GET", "POST", "DELETE"})
